@@ -127,6 +127,9 @@ def recintSignedModel (op : String) (n t : Nat) (a : List Int) : Option (List In
   | "sdivq", [x, y] => some [rd (s_divq t (I x) (I y))]
   | "sdivr", [x, y] => some [rd (s_divr t (I x) (I y))]
   | "sdivop", [x, y] | "sdiveq", [x, y] => some [rd (s_divq t (I x) (I y)), rd (s_divr t (I x) (I y))]
+  | "smodn", [x, y] => some [rd (s_modn t (I x) (I y))]
+  | "smodn2", [x, y] => some [rd (s_modn2 t (ofNat (n+1) (x % (Bn (n+1) : Int)).toNat) (I y))]
+  | "sinvmod", [x, y] => some [rd (s_invmod t (I x) (I y))]
   | "sshl", [b, d] => some (List.replicate 2 (rd (s_shl (I b) d.toNat)))
   | "sshr", [b, d] => some (List.replicate 2 (rd (s_shr (I b) d.toNat)))
   | _, _ => none
